@@ -70,6 +70,43 @@ def _enclosing_function(prog: Program, mod, node) -> FuncInfo | None:
     return best
 
 
+def _is_set_valued(e: ast.expr, set_locals: set[str]) -> bool:
+    """expressions whose value is a set (iteration order = hash order): literals, set()/frozenset(), set comprehensions,
+    set algebra on dict key views / sets (`a.keys() & b.keys()`, `s | t`, `s - t`), methods union/intersection/difference"""
+    if isinstance(e, (ast.Set, ast.SetComp)):
+        return True
+    if isinstance(e, ast.Name):
+        return e.id in set_locals
+    if isinstance(e, ast.Call) and isinstance(e.func, ast.Name) and e.func.id in ("set", "frozenset"):
+        return True
+    if isinstance(e, ast.Call) and isinstance(e.func, ast.Attribute) and e.func.attr in ("union", "intersection", "difference", "symmetric_difference") \
+            and (_is_set_valued(e.func.value, set_locals) or _is_keys_view(e.func.value)):
+        return True
+    if isinstance(e, ast.BinOp) and isinstance(e.op, (ast.BitAnd, ast.BitOr, ast.BitXor, ast.Sub)):
+        sides = (e.left, e.right)
+        if any(_is_set_valued(x, set_locals) or _is_keys_view(x) for x in sides):
+            return True
+    return False
+
+
+def _is_keys_view(e: ast.expr) -> bool:
+    return isinstance(e, ast.Call) and isinstance(e.func, ast.Attribute) and e.func.attr in ("keys", "items") and not e.args
+
+
+def _set_valued_locals(fn) -> set[str]:
+    out: set[str] = set()
+    grew = True
+    while grew:
+        grew = False
+        for n in walk_no_nested(fn):
+            if isinstance(n, (ast.Assign, ast.AnnAssign)) and n.value is not None:
+                for t in (n.targets if isinstance(n, ast.Assign) else [n.target]):
+                    if isinstance(t, ast.Name) and t.id not in out and _is_set_valued(n.value, out):
+                        out.add(t.id)
+                        grew = True
+    return out
+
+
 def _gen_expr_ok(prog: Program, fi, txt: str, ctx_base) -> bool:
     if txt in ("context.rng", "self._rng", "self.context.rng"):
         return True
@@ -507,16 +544,19 @@ def run(prog: Program, L: Ledger) -> None:
             if d in ("hash", "id") and fi.module.name.split(".")[1:2] not in (["io"],):
                 # hash()/id() feeding an ordering or a selection
                 L.note(f"{fi.qualname} calls {d}() at {where} (identity/hash use; checked for ordering below)")
+        set_locals = _set_valued_locals(fi.node)
         for n in walk_no_nested(fi.node):
             it = None
             if isinstance(n, ast.For):
                 it = n.iter
             elif isinstance(n, ast.comprehension):
                 it = n.iter
+            elif isinstance(n, ast.Call) and isinstance(n.func, ast.Name) and n.func.id in ("list", "tuple", "enumerate", "iter", "next", "zip") and n.args:
+                it = n.args[0]  # materialising a set in hash order
+            elif isinstance(n, ast.Call) and isinstance(n.func, ast.Attribute) and n.func.attr in ("choice", "permutation", "shuffle", "repeat", "array", "asarray", "fromiter") and n.args:
+                it = n.args[0]
             if it is not None:
-                is_set = isinstance(it, (ast.Set, ast.SetComp)) or (
-                    isinstance(it, ast.Call) and isinstance(it.func, ast.Name) and it.func.id in ("set", "frozenset")
-                )
+                is_set = _is_set_valued(it, set_locals)
                 if is_set:
                     n_g4 += 1
                     L.violation("G4", fi.qualname, f"{fi.module.relpath}:{it.lineno}", f"iterates a set `{norm(it)}`: order depends on hashing",
